@@ -295,15 +295,24 @@ def resource_clauses(view, out):
             any_res = True
             d = dd[rid]
             if d["cls"] == "CumulativeWorker":
+                # how the declared productivity splits over the unit workers is not documented; the declared
+                # productivity times the busy time is what the cumulative worker can contribute at most
                 unspec = True
+                total += d["args"].get("productivity", 1) * (view.end[tid] - view.start[tid])
             elif d["cls"] == "SelectWorkers" and any(dd[w["$"]]["cls"] != "Worker" for w in d["args"]["list_of_workers"]):
                 unspec = True
+                total += 10 ** 6
         for wid, lst in wb.items():
             for (t2, bs, be, kind) in lst:
                 if t2 == tid:
                     if be < bs:
                         unspec = True
+                        total += 10 ** 6
                     total += dd[wid]["args"].get("productivity", 1) * (be - bs)
+        if any_res and unspec:
+            # only the necessary condition is demanded
+            out.append((tid, t["cls"], "work-amount-upper-bound", False if total < wa else None, None))
+            continue
         if any_res:
             out.append((tid, t["cls"], "work-amount", None if unspec else total >= wa, None))
 
